@@ -458,6 +458,18 @@ def write_evidence(prop: Prop, ctx: Ctx, res: Result, obligations: int, discharg
 # ---------------------------------------------------------------------------
 
 def run_check(prop: Prop, tier: str, seed: int) -> int:
+    # two runs of the same property (e.g. against different QMI_REPO trees) must not interleave: they regenerate
+    # the same Gen/*.lean files and rewrite the same evidence file
+    lockf = open(LEAN / f".check_{prop.id}.lock", "w")
+    fcntl.flock(lockf, fcntl.LOCK_EX)
+    try:
+        return _run_check(prop, tier, seed)
+    finally:
+        fcntl.flock(lockf, fcntl.LOCK_UN)
+        lockf.close()
+
+
+def _run_check(prop: Prop, tier: str, seed: int) -> int:
     ensure_repo_on_path()
     ctx = Ctx(prop.id, tier, seed)
     res = Result()
